@@ -20,6 +20,8 @@
 // gz=1) in the same or a separate DATA frame; ae=1: the client asks for gzip itself (no transparent
 // decompression). The client additionally reports res.ContentLength, res.Uncompressed and the
 // Content-Encoding header.
+//
+// Round 5: "many" connections carry 6..16 concurrent exchanges with bodies of 1.5..300 kB.
 package h3e
 
 import (
@@ -221,7 +223,7 @@ func parseScenario(op string) (scenario, bool) {
 		}
 		sc.ex = append(sc.ex, e)
 	}
-	if len(sc.ex) == 0 || len(sc.ex) > 8 {
+	if len(sc.ex) == 0 || len(sc.ex) > 24 {
 		return sc, false
 	}
 	return sc, true
@@ -658,6 +660,16 @@ func (rn *runner) GenOp(r *vh.Rand, i int) string {
 		win = []int{600, 1000, 2000}[r.Intn(3)]
 		padLen = 2500 + r.Intn(11000)
 	}
+	// many-requests mode (round 5): 6..16 concurrent exchanges on one connection, most of them with bodies of
+	// several packets in one or both directions, so that the sender's stream scheduling queue rotates
+	// (streams with more data are re-queued) while further request streams become active
+	many := !big && r.Chance(12)
+	if many {
+		n = 6 + r.Intn(11)
+		if r.Chance(50) {
+			loss, reord = 0, 0
+		}
+	}
 	var sb strings.Builder
 	fmt.Fprintf(&sb, "conn loss=%d reord=%d lat=%d win=%d", loss, reord, 1+r.Intn(20), win)
 	for k := 0; k < n; k++ {
@@ -678,6 +690,15 @@ func (rn *runner) GenOp(r *vh.Rand, i int) string {
 			pad := kv{"x-pad", fmt.Sprintf("*%d.%d", l, r.Intn(36))}
 			at := r.Intn(len(e.h) + 1)
 			e.h = append(e.h[:at:at], append([]kv{pad}, e.h[at:]...)...)
+		}
+		if many {
+			e.method = methods[r.Pick(15, 50, 5, 30)]
+			pickB = func(r *vh.Rand) int {
+				if r.Chance(25) {
+					return 60000 + r.Intn(240000)
+				}
+				return 1500 + r.Intn(40000)
+			}
 		}
 		hasBody := e.method == "POST" || e.method == "PUT"
 		e.ta = 1
